@@ -244,7 +244,7 @@ def admissible(name, o, x, minlen=16):
             return 'order>=N-1'
         if p > 0:
             k, rho, dens = rar.burg(x, p)
-            if len(k) < p or np.any(dens < 1e-6 * N * power) or np.any(rho < 1e-9 * power):
+            if len(k) < p or np.any(dens < 1e-6 * N * power) or np.any(rho < 1e-6 * power):
                 return 'degenerate_burg'
     if base in ('aryule', 'pyule'):
         if order >= N:
